@@ -51,6 +51,7 @@ public:
     }
 
     ASTContext& ctx;
+    bool inConstInit = false;
     SourceManager& sm;
     PrintingPolicy pp;
 
@@ -583,6 +584,24 @@ public:
                     if (vd->getTLSKind() != VarDecl::TLS_None)
                         o["thread_local"] = true;
                     o["decl_file"] = fileOf(vd->getLocation());
+                    // constant tables: the initialiser of a const global (small literal lists only)
+                    if (!inConstInit && ctx.getBaseElementType(vd->getType()).isConstQualified())
+                    {
+                        const VarDecl* def = nullptr;
+                        if (const Expr* init = vd->getAnyInitializer(def))
+                        {
+                            const Expr* ie = init->IgnoreImplicit();
+                            auto* il = dyn_cast<InitListExpr>(ie);
+                            if (!init->isValueDependent() &&
+                                ((il && il->getNumInits() <= 128) || isa<StringLiteral>(ie) ||
+                                 isa<IntegerLiteral>(ie) || isa<CXXBoolLiteralExpr>(ie)))
+                            {
+                                inConstInit = true;
+                                o["const_init"] = JE(init);
+                                inConstInit = false;
+                            }
+                        }
+                    }
                 }
             }
             return o;
@@ -822,7 +841,13 @@ public:
                     o["dep"] = true;
                     const Expr* ce = strip(c->getCallee());
                     if (isa<UnresolvedMemberExpr>(ce) || isa<CXXDependentScopeMemberExpr>(ce))
+                    {
                         o["this"] = base ? JE(base) : json::Value(json::Object{ { "k", "this" } });
+                        if (auto* dm2 = dyn_cast<CXXDependentScopeMemberExpr>(ce))
+                            o["arrow"] = base ? dm2->isArrow() : true;
+                        else if (auto* um2 = dyn_cast<UnresolvedMemberExpr>(ce))
+                            o["arrow"] = base ? um2->isArrow() : true;
+                    }
                 }
                 else
                 {
